@@ -211,6 +211,7 @@ def build(lang, ch):
                 args.append(ast.CallArgument(ast.StringConstant('a%d' % b.n) if pt == b.string()
                                              else ast.IntegerConstant(100 + b.n, b.integer())))
             nvar = 0
+            elem = None
             if vararg:
                 if lang == 'kotlin':
                     from src.ir import kotlin_types as kt
@@ -220,17 +221,23 @@ def build(lang, ch):
                     vt = sc.Seq.new([b.integer()])
                 else:
                     vt = b.f.get_array_type().new([b.integer()])
+                if lang != 'kotlin' and ch.integer(0, 2) == 0:
+                    # a vararg whose element type is itself parameterized: Cell<String>...
+                    cell = b.cls(b.name('Cell'), type_params=[tp.TypeParameter('E%d' % b.n)])
+                    elem = cell.get_type().new([b.string()])
+                    vt = vt.t_constructor.new([elem])
                 params.append(ast.ParameterDeclaration(b.name('vs'), vt, vararg=True))
                 nvar = ch.integer(0, 3)
                 for j in range(nvar):
                     b.n += 1
-                    args.append(ast.CallArgument(ast.IntegerConstant(200 + b.n, b.integer())))
+                    args.append(ast.CallArgument(ast.IntegerConstant(200 + b.n, b.integer()) if elem is None
+                                                 else ast.New(cell.get_type().new([b.string()]), [])))
             block = ch.boolean()
             ibody = b.const(ret)
             inner = b.func(b.G + (oname,), iname, params, ret, ast.Block([ibody]) if block else ibody)
             call = ast.FunctionCall(iname, args)
             b.func(b.G, oname, [], ret, ast.Block([inner, call]))
-            labels.append('nested-func/%d%s/%s' % (nfixed, '+vararg%d' % nvar if vararg else '', 'block' if block else 'expression'))
+            labels.append('nested-func/%d%s/%s' % (nfixed, ('+vararg%d' % nvar + ('-parameterized' if elem is not None else '')) if vararg else '', 'block' if block else 'expression'))
         elif u == 'receiver-new':
             # a constructor call in *receiver* position (no expected type there): its explicit type argument is
             # determined by nothing but itself, although the enclosing declaration has a declared type of the same class
